@@ -34,6 +34,7 @@ type check struct {
 	isKw     map[string]bool
 	inCore   map[string]bool
 	gCases   []gCase
+	shCases  []shCase
 
 	nA, nB, nC, nD int64 // units per part
 	bCases         []bCase
@@ -73,18 +74,19 @@ func (c *check) Init(tier string, seed int64) engine.Space {
 			"part d: one case per (block of <= 3 valid declarations, invalid declaration, position). A case is non-trivial when the oracle was actually compared " +
 			"(the value was accepted / the document was styled).",
 		Bounds: map[string]any{
-			"properties":             len(c.names),
-			"keyword_alphabet":       len(c.keywords),
-			"keyword_origin":         c.kwOrigin,
-			"one_token_alphabet":     len(c.full),
-			"core_tokens":            tokCore,
-			"context_keywords":       ctxKeywords,
-			"max_tokens":             map[bool]int{false: 3, true: 4}[c.thorough],
-			"units_a_b_c_d":          []int64{c.nA, c.nB, c.nC, c.nD},
-			"shorthand_ref_cases":    len(c.bCases),
-			"custom_property_graphs": map[bool]string{false: "all 512 edge sets on 3 names", true: "all 512 edge sets on 3 names + the 4-name edge sets (of 65536) in which every name is reachable from the referenced one"}[c.thorough],
-			"independence_menu":      len(dMenu),
-			"invalid_declarations":   len(dInvalid),
+			"properties":               len(c.names),
+			"keyword_alphabet":         len(c.keywords),
+			"keyword_origin":           c.kwOrigin,
+			"one_token_alphabet":       len(c.full),
+			"core_tokens":              tokCore,
+			"context_keywords":         ctxKeywords,
+			"max_tokens":               map[bool]int{false: 3, true: 4}[c.thorough],
+			"units_a_b_c_d":            []int64{c.nA, c.nB, c.nC, c.nD},
+			"shorthand_ref_cases":      len(c.bCases),
+			"custom_property_graphs":   map[bool]string{false: "all 512 edge sets on 3 names", true: "all 512 edge sets on 3 names + the 4-name edge sets (of 65536) in which every name is reachable from the referenced one"}[c.thorough],
+			"shared_declaration_cases": fmt.Sprintf("%d rule templates x %d arrangements of 2-4 matched elements (siblings in every order, parent/child/grandchild with own, inherited and partly inherited custom properties)", len(shTemplates), len(shConfigs(shTemplates[0]))),
+			"independence_menu":        len(dMenu),
+			"invalid_declarations":     len(dInvalid),
 		},
 		Assumptions: []string{
 			"a token that never occurs in an accepted value of one or two tokens does not occur in an accepted value of three tokens (long-hands of a shorthand contribute their tokens to the shorthand)",
